@@ -52,6 +52,9 @@ type BoundContract struct {
 	Dec         map[int]ClauseExpr
 	LoopMod     map[int][]ast.Expr
 	LoopSplit   map[int][]ast.Expr
+	Appends     [][2]ast.Expr
+	Copies      [][3]ast.Expr
+	CallsOnly   []string
 	Split       []ast.Expr
 	Unroll      map[int]int
 	HasLoop     map[int]bool
@@ -274,8 +277,16 @@ func (env *specEnv) ident(x *ast.Ident) Val {
 		if v, ok := env.vars[o]; ok {
 			return v
 		}
-		// local of the function under contract
-		if name, ok := env.bc.Locals[o]; ok {
+		// local of the function under contract (named results are locals inside the body)
+		name, ok := env.bc.Locals[o]
+		if !ok && env.fr != nil {
+			for _, r := range env.bc.Results {
+				if r == o {
+					name, ok = r.Name(), true
+				}
+			}
+		}
+		if ok {
 			if env.fr == nil {
 				panic("local " + name + " used outside the function body")
 			}
@@ -551,7 +562,15 @@ func (env *specEnv) addr(e ast.Expr) (*Term, types.Type) {
 	case *ast.Ident:
 		obj := env.info().Uses[x]
 		if v, ok := obj.(*types.Var); ok {
-			if name, ok := env.bc.Locals[v]; ok && env.fr != nil {
+			name, ok := env.bc.Locals[v]
+			if !ok && env.fr != nil {
+				for _, r := range env.bc.Results {
+					if r == v {
+						name, ok = r.Name(), true
+					}
+				}
+			}
+			if ok && env.fr != nil {
 				a := env.fr.findLocal(name, v.Type())
 				if a != nil && !env.fr.isReg[a] {
 					at, ok := env.fr.vals[a].(*Term)
@@ -695,6 +714,23 @@ func (env *specEnv) callExpr(x *ast.CallExpr) Val {
 			return c.Exists([]*Term{k}, c.And(rng, body))
 		case "out":
 			return env.ghostOut(x.Args[0])
+		case "seq":
+			id := env.identity(x.Args[0])
+			base := c.Fld(id, fGhostSeq)
+			ln := u.readCell(env.st, "bv64", c.Fld(base, fGhostLen))
+			u.assumeGlobal(c.ULe(ln, c.BVu(1<<40, 64)))
+			return &SliceV{Base: base, Off: c.BVu(0, 64), Len: ln, Cap: ln}
+		case "misc":
+			return u.readCell(env.st, "bv64", c.Fld(env.identity(x.Args[0]), fGhostMisc))
+		case "ghostInt":
+			return u.readCell(env.st, "bv64", c.Fld(env.identity(x.Args[0]), env.ghostField(x.Args[1])))
+		case "ghostBool":
+			return u.readCell(env.st, "bool", c.Fld(env.identity(x.Args[0]), env.ghostField(x.Args[1])))
+		case "ghostBytes", "ghostSeq":
+			base := c.Fld(env.identity(x.Args[0]), env.ghostField(x.Args[1]))
+			ln := u.readCell(env.st, "bv64", c.Fld(base, fGhostLen))
+			u.assumeGlobal(c.ULe(ln, c.BVu(1<<56, 64)))
+			return &SliceV{Base: base, Off: c.BVu(0, 64), Len: ln, Cap: ln}
 		case "held":
 			a := env.identity(x.Args[0])
 			return u.readCell(env.st, "bool", c.Fld(a, fGhostHeld))
@@ -864,6 +900,36 @@ func (env *specEnv) region(items []ast.Expr, all bool) *Region {
 					cell := c.Fld(idt, fGhostHeld)
 					r.add("bool", func(a *Term) *Term { return c.Eq(a, cell) })
 					continue
+				case "misc":
+					idt := env.identity(call.Args[0])
+					cell := c.Fld(idt, fGhostMisc)
+					r.add("bv64", func(a *Term) *Term { return c.Eq(a, cell) })
+					continue
+				case "ghostInt", "ghostBool":
+					cell := c.Fld(env.identity(call.Args[0]), env.ghostField(call.Args[1]))
+					kind := "bv64"
+					if id.Name == "ghostBool" {
+						kind = "bool"
+					}
+					r.add(kind, func(a *Term) *Term { return c.Eq(a, cell) })
+					continue
+				case "ghostBytes", "ghostSeq":
+					base := c.Fld(env.identity(call.Args[0]), env.ghostField(call.Args[1]))
+					lenCell := c.Fld(base, fGhostLen)
+					r.add("bv64", func(a *Term) *Term { return c.Eq(a, lenCell) })
+					if id.Name == "ghostBytes" {
+						r.addElems(u, base, nil, nil, types.Typ[types.Uint8])
+					} else {
+						r.addElems(u, base, nil, nil, types.NewInterfaceType(nil, nil))
+					}
+					continue
+				case "seq":
+					idt := env.identity(call.Args[0])
+					base := c.Fld(idt, fGhostSeq)
+					lenCell := c.Fld(base, fGhostLen)
+					r.add("bv64", func(a *Term) *Term { return c.Eq(a, lenCell) })
+					r.addElems(u, base, nil, nil, types.NewInterfaceType(nil, nil))
+					continue
 				}
 			}
 		}
@@ -885,4 +951,19 @@ func (env *specEnv) region(items []ast.Expr, all bool) *Region {
 		r.addCell(u, a, t)
 	}
 	return r
+}
+
+// ghostField maps a ghost field name (a string constant) to its pseudo field id.
+func (env *specEnv) ghostField(e ast.Expr) int {
+	tv := env.info().Types[e]
+	if tv.Value == nil {
+		panic("ghost field name must be a string constant")
+	}
+	name := constant.StringVal(tv.Value)
+	id, ok := env.u.E.ghostNames[name]
+	if !ok {
+		id = -(100 + len(env.u.E.ghostNames))
+		env.u.E.ghostNames[name] = id
+	}
+	return id
 }
